@@ -883,6 +883,7 @@ def apply_spans_index_of_min_indexed(spans, src_indices, src_values, dest_array=
                         minind = j
                         minstart = curstart
                         minend = curend
+                        minlen = curlen
                         found = True
                         break
                     elif src_values[curstart+k] > src_values[minstart+k]:
@@ -892,6 +893,7 @@ def apply_spans_index_of_min_indexed(spans, src_indices, src_values, dest_array=
                     minind = j
                     minstart = curstart
                     minend = curend
+                    minlen = curlen
 
             dest_array[i] = minind
 
